@@ -17,6 +17,7 @@ import NGF.Model.Telemetry
 import NGF.Model.SnippetLex
 import NGF.Proofs.Telemetry
 import NGF.Generated.TelemetryFacts
+import NGF.Props.C19Truth
 
 namespace NGF.Telemetry
 open NGF.SnippetLex
